@@ -355,9 +355,13 @@ class CtlWorld:
 
     def resolve(self, v, mod):
         if isinstance(v, dict) and "$path" in v:
+            parts = v["$path"].split(".")
+            if parts[0] == "ctlfuncs":
+                obj = mod
+                for name in parts[1:]:
+                    obj = getattr(obj, name)
+                return obj
             modname, _, attr = v["$path"].rpartition(".")
-            if modname == "ctlfuncs":
-                return getattr(mod, attr)
             return getattr(importlib.import_module(modname), attr)
         if isinstance(v, dict) and "$lit" in v:
             return ast.literal_eval(v["$lit"])
